@@ -19,4 +19,23 @@ theorem error_is_inert (r : Rbuf) (op : Spec.Fifo.Op) (m : Mem) (st : Stat)
 theorem empty_rejected (r : Rbuf) (m : Mem) (h : r.size = 0) : (r.dequeue m).1 = .errOutOfRange := by
   simp [Rbuf.dequeue, h]
 
+/-- `cc_rbuf_peek` with an index outside `[0, capacity)` (negative included) returns 0 without
+touching the buffer; inside the range it reads an allocated slot (no fault under the invariant) -/
+theorem peek_out_of_range (r : Rbuf) (i : Int) (m : Mem) (h : i < 0 ∨ (r.cap : Int) ≤ i) :
+    r.peek i m = (0, m) := by
+  unfold Rbuf.peek
+  have : i < 0 ∨ r.cap ≤ i.toNat := by
+    rcases h with h | h
+    · exact Or.inl h
+    · right; omega
+  simp [this]
+
+theorem peek_in_range_nofault (r : Rbuf) (i : Int) (m : Mem) (hinv : r.Inv) (h0 : 0 ≤ i) (h1 : i < r.cap) :
+    (r.peek i m).2 = m ∧ (r.peek i m).1 = r.buf.get i.toNat := by
+  obtain ⟨_, hl, _⟩ := hinv
+  unfold Rbuf.peek
+  have : ¬ (i < 0 ∨ r.cap ≤ i.toNat) := by omega
+  have hb : decide (i.toNat < r.buf.length) = true := by simp; omega
+  simp [this, hb]
+
 end CC.Properties.C16Rbuf
